@@ -72,7 +72,8 @@ def main():
         if os.path.exists(os.path.join(d, "patch.diff")):
             q.put(d)
     rows, lock = [], threading.Lock()
-    ts = [threading.Thread(target=worker, args=(k + 1, q, rows, extra_all, lock)) for k in range(K)]
+    base = int(os.environ.get("SEED_WT_BASE", "0"))
+    ts = [threading.Thread(target=worker, args=(base + k + 1, q, rows, extra_all, lock)) for k in range(K)]
     for t in ts: t.start()
     for t in ts: t.join()
     rows.sort()
